@@ -1026,7 +1026,7 @@ class BinaryDataEncoding(DataEncoding):
         -------
         : ElementTree.Element
         """
-        if self.fixed_size_in_bits:
+        if self.fixed_size_in_bits is not None:
             return elmaker.BinaryDataEncoding(
                 elmaker.SizeInBits(
                     elmaker.FixedValue(str(self.fixed_size_in_bits))
